@@ -346,7 +346,7 @@ pub fn run(which: Which, tier: Tier) -> i32 {
     }
     let ctxs = contexts();
     // C18 re-analyses per accepted item: use a sub-family of the contexts in the quick tier
-    let ctxs: Vec<Context> = if which == Which::C18 && tier == Tier::Quick { ctxs.into_iter().filter(|c| c.params == 1).collect() } else { ctxs };
+    let ctxs: Vec<Context> = if which == Which::C18 && tier == Tier::Quick { ctxs.into_iter().filter(|c| c.params <= 1).collect() } else { ctxs };
     let max_slots = tier.pick(9usize, 11usize);
     let jobs: Vec<(Context, &Vec<(usize, Option<usize>)>)> = ctxs.iter().flat_map(|c| sks.iter().map(move |s| (*c, s))).collect();
     let res: Vec<(u64, u64, u64, u64, Vec<Violation>)> = jobs
